@@ -148,12 +148,31 @@ class Interp:
                 self.ev(st.value, env, fi)
             elif isinstance(st, ast.Pass):
                 continue
+            elif isinstance(st, ast.For) and not st.orelse:
+                for item in self.iterate(self.ev(st.iter, env, fi)):
+                    self.store(st.target, item, env, fi)
+                    try:
+                        self.block(st.body, env, fi)
+                    except _Continue:
+                        continue
+                    except _Break:
+                        break
+            elif isinstance(st, ast.Continue):
+                raise _Continue()
+            elif isinstance(st, ast.Break):
+                raise _Break()
+            elif isinstance(st, ast.AugAssign) and isinstance(st.target, ast.Name):
+                cur = self.ev(ast.Name(id=st.target.id, ctx=ast.Load()), env, fi)
+                env[st.target.id] = self.binop(st.op, cur, self.ev(st.value, env, fi), fi)
             else:
                 raise InterpUnsupported(f"{fi.qualname}: statement `{norm(st)[:60]}` outside the dispatch fragment")
 
     def store(self, t, v, env, fi):
         if isinstance(t, ast.Name):
             env[t.id] = v
+        elif isinstance(t, (ast.Tuple, ast.List)) and isinstance(v, (list, tuple)) and len(v) == len(t.elts):
+            for tt, vv in zip(t.elts, v):
+                self.store(tt, vv, env, fi)
         elif isinstance(t, ast.Attribute):
             o = self.ev(t.value, env, fi)
             if isinstance(o, Obj):
@@ -183,6 +202,11 @@ class Interp:
             return ClsV(name)
         if name == "NotImplemented":
             return NOT_IMPLEMENTED
+        # a module-level function of the package (e.g. a shared argument check): called like any other function
+        modname, _, fname = full.rpartition(".")
+        mod = self.prog.modules.get(modname)
+        if mod is not None and fname in mod.functions:
+            return _Unbound(None, mod.functions[fname])
         return _Opaque(full)
 
     def ev(self, e, env, fi):
@@ -271,12 +295,26 @@ class Interp:
         if isinstance(e, ast.Call):
             return self.call(e, env, fi)
         if isinstance(e, ast.ListComp):
-            return _Opaque("listcomp")
+            return list(self._comp(e.elt, e.generators, dict(env), fi))
+        if isinstance(e, ast.GeneratorExp):
+            return _Lazy(self._comp(e.elt, e.generators, dict(env), fi))  # consumed lazily: any()/all() short-circuit
         raise InterpUnsupported(f"{fi.qualname}: expression `{norm(e)[:60]}` outside the dispatch fragment")
+
+    def _comp(self, elt, gens, env, fi):
+        g = gens[0]
+        for item in self.iterate(self.ev(g.iter, env, fi)):
+            self.store(g.target, item, env, fi)
+            if all(self.truth(self.ev(c, env, fi)) for c in g.ifs):
+                if len(gens) == 1:
+                    yield self.ev(elt, env, fi)
+                else:
+                    yield from self._comp(elt, gens[1:], env, fi)
 
     def iterate(self, v):
         if isinstance(v, (list, tuple)):
             return list(v)
+        if isinstance(v, _Lazy):
+            return v.gen
         if isinstance(v, Obj):
             it = self.prog.lookup_method(v.cls, "__iter__")
             if it is not None:
@@ -392,6 +430,37 @@ class Interp:
                 return _Iter(self.iterate(args[0]))
             if f.id == "warn":
                 return None
+            if f.id == "range" and args and all(isinstance(a_, int) and not isinstance(a_, bool) for a_ in args):
+                return list(range(*args))
+            if f.id == "range":
+                raise PyRaise("TypeError", "range() with a non-integer argument")
+            if f.id in ("any", "all") and len(args) == 1:
+                it = self.iterate(args[0])
+                if f.id == "any":
+                    for x in it:
+                        if self.truth(x):
+                            return True
+                    return False
+                for x in it:
+                    if not self.truth(x):
+                        return False
+                return True
+            if f.id in ("list", "tuple") and len(args) <= 1:
+                items = list(self.iterate(args[0])) if args else []
+                return items if f.id == "list" else tuple(items)
+            if f.id == "bool" and len(args) == 1:
+                return self.truth(args[0])
+            if f.id == "sum" and len(args) == 1:
+                tot = 0
+                for x in self.iterate(args[0]):
+                    if not isinstance(x, (int, float)):
+                        raise InterpUnsupported("sum() over non-numbers")
+                    tot += x
+                return tot
+            if f.id == "enumerate" and len(args) == 1:
+                return [(i_, x) for i_, x in enumerate(self.iterate(args[0]))]
+            if f.id == "reversed" and len(args) == 1:
+                return list(reversed(list(self.iterate(args[0]))))
             if f.id == "super":
                 return _Super(env.get("self"), env.get("__class_cell__"))
         fv = self.ev(f, env, fi)
@@ -406,6 +475,8 @@ class Interp:
             return self.call_function(fv.func, [fv.obj] + args, kwargs)
         if isinstance(fv, _Unbound):
             return self.call_function(fv.func, args, kwargs)
+        if isinstance(fv, Stub):
+            return fv.called(args, kwargs)
         if isinstance(fv, _Opaque):
             return _Opaque(f"call:{fv.what}")
         raise InterpUnsupported(f"{fi.qualname}: call `{norm(e)[:60]}`")
@@ -455,6 +526,30 @@ class Interp:
         if c.ci == "list":
             return isinstance(v, list)
         return False
+
+
+class _Break(Exception):
+    pass
+
+
+class _Continue(Exception):
+    pass
+
+
+class _Lazy:
+    def __init__(self, gen):
+        self.gen = gen
+
+
+class Stub:
+    """A stand-in for a user object that is only called: records each call, returns a preset value."""
+
+    def __init__(self, name: str, result, log: list):
+        self.name, self.result, self.log = name, result, log
+
+    def called(self, args, kwargs):
+        self.log.append((self.name, args, kwargs))
+        return self.result
 
 
 class _Return(Exception):
